@@ -100,17 +100,115 @@ pub fn profile() -> Profile {
     p
 }
 
+/// The one-off initialisation of the counts with a *large* coin set: a testnet chain whose early blocks fan the
+/// genesis coin out into 300-1000 coins under 1-5 covenant hashes (plus faucet markers), fast-forwarded to the
+/// activation height and across it; the counts are compared with a recount at 499, 500 and after one more batch.
+#[derive(Clone, Debug, serde::Serialize, serde::Deserialize)]
+pub struct BigSet {
+    pub fans: Vec<(u8, u8)>,
+    pub faucets: u8,
+    pub spend_after: u8,
+}
+
+pub fn arb_big_set() -> impl proptest::strategy::Strategy<Value = BigSet> {
+    use proptest::prelude::*;
+    (proptest::collection::vec((120u8..=254, any::<u8>()), 2..5), 0u8..6, any::<u8>()).prop_map(|(fans, faucets, spend_after)| BigSet { fans, faucets, spend_after })
+}
+
+pub fn check_big_set(c: &BigSet, st: &mut Stats, shard: usize) -> Check {
+    use crate::world::{CovSpec, GenesisSpec};
+    use melstructs::{CoinData, CoinID, CoinValue, Denom, NetID, Transaction, TxKind};
+    st.eval();
+    let t = CovSpec::True;
+    let covs = [CovSpec::True, CovSpec::SigNew(1), CovSpec::SigLegacy(2), CovSpec::HeightAbove(0), CovSpec::SigNew(3)];
+    let out = |cov: &CovSpec, v: u128| CoinData { covhash: cov.hash(), value: CoinValue(v), denom: Denom::Mel, additional_data: Default::default() };
+    let g = GenesisSpec { net: NetID::Testnet, init: out(&t, 1 << 90), init_cov: t.clone(), fee_pool: 0, fee_mult: 100, stakes: vec![] };
+    let mut w = World::new(g, shard);
+    let fee = 1u128 << 30;
+    let unit = 1u128 << 40;
+    let mut carry = (CoinID::zero_zero(), 1u128 << 90);
+    let mut n_coins = 0usize;
+    let mut spendable: Vec<CoinID> = vec![];
+    for (fan, mix) in c.fans.iter() {
+        let mut f = Transaction::new(TxKind::Normal);
+        f.inputs = vec![carry.0];
+        f.covenants = vec![t.bytes().into()];
+        for i in 0..*fan as usize {
+            // `mix` decides how many covenant hashes share the fan-out and how they interleave
+            let cov = &covs[(i * (1 + (*mix as usize % 3))) % (1 + (*mix as usize / 3) % covs.len())];
+            f.outputs.push(out(cov, unit));
+        }
+        let change = carry.1 - unit * *fan as u128 - fee;
+        f.outputs.push(out(&t, change));
+        f.fee = CoinValue(fee);
+        let h = f.hash_nosigs();
+        if !matches!(w.apply_batch(std::slice::from_ref(&f)), O::Ok(())) {
+            st.exclude("fan-out-rejected");
+            return Ok(());
+        }
+        for i in 0..*fan as usize {
+            if f.outputs[i].covhash == t.hash() {
+                spendable.push(CoinID::new(h, i as u8));
+            }
+        }
+        carry = (CoinID::new(h, *fan), change);
+        n_coins += *fan as usize + 1;
+    }
+    for i in 0..c.faucets {
+        let mut fa = Transaction::new(TxKind::Faucet);
+        fa.outputs.push(out(&covs[i as usize % covs.len()], 1000));
+        fa.data = vec![i].into();
+        fa.fee = CoinValue(fee);
+        let _ = w.apply_batch(std::slice::from_ref(&fa));
+    }
+    check_counts(&w.snap(), "before-activation-large-set")?;
+    while w.height() < 499 {
+        if !matches!(w.seal(None), O::Ok(_)) {
+            return Ok(());
+        }
+    }
+    check_counts(&w.snap(), "at-499-large-set")?;
+    if !matches!(w.seal(None), O::Ok(_)) {
+        viol!("seal-panicked-at-activation", "sealing block 499 of a chain holding {} coins panicked", n_coins);
+    }
+    // the block being built is 500: the counts have just been initialised
+    check_counts(&w.snap(), "at-activation-large-set")?;
+    st.class(if n_coins > 256 { "activation-crossed-with-more-than-256-coins" } else { "activation-crossed-with-up-to-256-coins" });
+    // spend a few coins and create others, seal, recount
+    let mut sp = Transaction::new(TxKind::Normal);
+    let k = 1 + (c.spend_after as usize % 6).min(spendable.len().saturating_sub(1));
+    sp.inputs = spendable.iter().take(k).copied().collect();
+    sp.covenants = vec![t.bytes().into()];
+    if !sp.inputs.is_empty() {
+        sp.outputs.push(out(&covs[c.spend_after as usize % covs.len()], unit * sp.inputs.len() as u128 - fee));
+        sp.fee = CoinValue(fee);
+        if matches!(w.apply_batch(std::slice::from_ref(&sp)), O::Ok(())) {
+            check_counts(&w.snap(), "after-batch-past-activation-large-set")?;
+        }
+    }
+    if matches!(w.seal(None), O::Ok(_)) {
+        check_counts(&w.snap(), "after-seal-past-activation-large-set")?;
+    }
+    st.nontrivial(h64(format!("{:?}", c).as_bytes()));
+    Ok(())
+}
+
 pub fn run(ctx: &Ctx) -> (Outcome, String, Option<bool>) {
     let mut p = profile();
     if ctx.thorough() {
         p.max_steps = 30;
         p.max_txs = 10;
     }
-    let out = super::hist::run_histories(ctx, "histories", p, ctx.scale(900, 9000), C20::default);
-    let rule = "Generated histories on Custom02/Custom08 (TIP-906 active from genesis) and Testnet (26%; a share of them fast-forwarded with empty blocks to just below height 500 so that the activation is crossed with coins in place) and Mainnet (12%; height jumps land one block below 830 000 and the activation is crossed honestly): all transaction kinds, child-first batches, pool settlements, proposer rewards, faucet markers. Oracle: invariant read through the cfg(melstf_verif) view after genesis, every accepted batch, every seal and every block opening: the raw coin tree is partitioned into coin entries and count entries; for every covenant hash the count entry equals the number of coin entries, no count entry exists without coins, none exist before activation, and no unexplained entry exists. Non-trivial = history with >=1 pool settlement or proposer reward and >=1 spend; distinct by the sequence of coin roots.".to_string();
+    let mut out = super::hist::run_histories(ctx, "histories", p, ctx.scale(900, 9000), C20::default);
+    out.absorb(crate::runner::run_sharded(ctx, "large-coin-set-at-activation", ctx.scale(3, 24), arb_big_set, |c, st, shard| check_big_set(c, st, shard)));
+    let rule = "Second phase: testnet chains whose first block fans the genesis coin out into 240-1000 coins under 1-5 interleaved covenant hashes (plus faucet markers), sealed forward to height 499 and across the activation; counts compared with a recount at 499, at 500, after a batch and after a seal. First phase: generated histories on Custom02/Custom08 (TIP-906 active from genesis) and Testnet (26%; a share of them fast-forwarded with empty blocks to just below height 500 so that the activation is crossed with coins in place) and Mainnet (12%; height jumps land one block below 830 000 and the activation is crossed honestly): all transaction kinds, child-first batches, pool settlements, proposer rewards, faucet markers. Oracle: invariant read through the cfg(melstf_verif) view after genesis, every accepted batch, every seal and every block opening: the raw coin tree is partitioned into coin entries and count entries; for every covenant hash the count entry equals the number of coin entries, no count entry exists without coins, none exist before activation, and no unexplained entry exists. Non-trivial = history with >=1 pool settlement or proposer reward and >=1 spend; distinct by the sequence of coin roots.".to_string();
     (out, rule, None)
 }
 
 pub fn replay(case: &serde_json::Value) -> Check {
+    if case.get("fans").is_some() {
+        let c: BigSet = serde_json::from_value(case.clone()).map_err(|e| crate::evidence::Violation::new("replay-format", e.to_string()))?;
+        return check_big_set(&c, &mut Stats::default(), 200);
+    }
     super::hist::replay_history(case, &profile(), C20::default())
 }
